@@ -602,8 +602,13 @@ namespace DFS
       return std::vector<int>{2, 1};
   }
 
-  std::vector<DFS::ImageFileFormat> make_candidate_list(const std::string& name)
+  std::vector<DFS::ImageFileFormat> make_candidate_list(const std::string& file_name)
   {
+    // The hints come from the extension which describes the image
+    // itself, so ignore the extra extension of a compressed file
+    // (foo.sdd.gz is an SDD file).
+    std::string name(file_name);
+    DFS::stringutil::remove_suffix(&name, ".gz");
     std::optional<DFS::Encoding> encoding_hint;
     std::optional<bool> interleaving_hint;
     std::optional<int> sides_hint;
